@@ -125,10 +125,11 @@ def check_case(case: dict):
                 if phase == "auth":
                     armed["on"] = True
                     out["call"] = "authenticate"
-                    if api == "lan":
-                        await obj.authenticate(TOKEN, KEY)
-                    else:
-                        await obj.authenticate(TOKEN, KEY)
+                    # the two credentials in any mix of the accepted forms (bytes / hex text)
+                    forms = case.get("forms", "bb")
+                    t_arg = TOKEN.hex() if forms[0] == "h" else TOKEN
+                    k_arg = KEY.hex() if forms[1] == "h" else KEY
+                    await obj.authenticate(t_arg, k_arg)
                     out["result"] = None
                     return
                 await lan.authenticate(TOKEN, KEY)
@@ -158,6 +159,12 @@ def check_case(case: dict):
                     out.pop("exc", None)
                 if attempt:
                     quiet["on"] = False
+                    if attempt == 1 and case.get("lifetime_after"):
+                        # configuration changed between two calls: a connection lifetime is set after the first contact
+                        if api == "lan":
+                            obj.max_connection_lifetime = case["lifetime_after"]
+                        else:
+                            obj.set_max_connection_lifetime(case["lifetime_after"])
                 try:
                     async def call():
                         if api == "lan":
@@ -256,7 +263,7 @@ def _nontrivial(case) -> bool:
 
 def _run_one(ctx, case):
     import json
-    key = hash((json.dumps(case["hostile"], sort_keys=True), case["version"], case["phase"], case["api"], tuple(case.get("cuts", [])), case.get("delay"), case.get("tick"), case.get("debug"), case.get("then_close"), case.get("reset"), case.get("silent"), case.get("again"), case.get("after_hs"), case.get("multi"), case.get("silent_after"), case.get("cancel_at")))
+    key = hash((json.dumps(case["hostile"], sort_keys=True), case["version"], case["phase"], case["api"], tuple(case.get("cuts", [])), case.get("delay"), case.get("tick"), case.get("debug"), case.get("then_close"), case.get("reset"), case.get("silent"), case.get("again"), case.get("after_hs"), case.get("multi"), case.get("silent_after"), case.get("cancel_at"), case.get("forms"), case.get("lifetime_after")))
     nt = _nontrivial(case)
     cls = f"v{case['version']}/{case['phase']}/{case['api']}"
     ctx.case(key, nt, cls=cls)
@@ -300,6 +307,7 @@ def _catalogue():
     v3.append({"t": "v3", "ptype": 3, "inner": {"t": "v2"}, "enc": "ok", "tag": "bad"})
     v3.append({"t": "v3", "ptype": 3, "inner": {"t": "v2"}, "enc": "ok", "tag": "ok", "magic": 0x21})
     cases = []
+    benign_ = {"t": "raw", "data": ""}
     for r in v2:
         for api in ("lan", "device", "ac"):
             cases.append({"version": 2, "phase": "send", "api": api, "hostile": r, "cuts": []})
@@ -403,6 +411,18 @@ def _catalogue():
                               "hostile": {"t": "rep", "n": n, "item": {"t": "raw", "data": "5a5a01110600"}, "tail": {"t": "v2"}}})
                 cases.append({"version": 2, "phase": phase, "api": api, "cuts": [], "burst": True,
                               "hostile": {"t": "rep", "n": n, "item": {"t": "v2", "sign": "bad"}, "tail": {"t": "v2"}}})
+    # credentials in mixed forms x every handshake-reply shape; a connection lifetime configured between two calls
+    for forms in ("bh", "hb", "hh"):
+        for r in v3[:32:3] + [v3[-1], v3[-2], {"t": "v3", "ptype": 1, "inner": {"t": "raw", "data": bytes(64).hex()}, "enc": "clear", "tag": "none"},
+                               {"t": "v3", "ptype": 1, "inner": {"t": "raw", "data": bytes(range(64)).hex()}, "enc": "clear", "tag": "none"}]:
+            for api in ("lan", "device"):
+                cases.append({"version": 3, "phase": "auth", "api": api, "hostile": r, "cuts": [], "forms": forms})
+    for version in (2, 3):
+        for api in ("lan", "device", "ac"):
+            for phase in ("send", "idle"):
+                for r in (benign_, (v2[0] if version == 2 else v3[0]), (v2[5] if version == 2 else v3[40])):
+                    for life in (30, 0.5):
+                        cases.append({"version": version, "phase": phase, "api": api, "hostile": r, "cuts": [], "again": 2, "lifetime_after": life})
     # a refresh that consists of several queries (energy polling on): one query gets the hostile answer, then the peer says nothing
     # more (or goes on normally)
     for version in (2, 3):
@@ -436,7 +456,8 @@ def run(ctx) -> None:
             "hostile": hostile.recipes(version), "cuts": gens.cut_sets(200, 4)},
             optional={"delay": st.sampled_from([0.05, 1.0, 1.9985, 1.999, 1.9995, 2.0, 2.0005, 3.999, 5.9995]), "tick": st.sampled_from([0.0, 0.001]),
                       "debug": st.sampled_from([False, False, False, True]), "silent": st.booleans(), "again": st.sampled_from([0, 0, 1, 2]), "after_hs": st.sampled_from([0.0, 0.3, 0.99]), "then_close": st.sampled_from([0.0, 0.3, 1.9, 2.5]), "reset": st.booleans(),
-                      "multi": st.booleans(), "silent_after": st.booleans(), "cancel_at": st.sampled_from([0.02, 0.5, 1.2, 2.5])}).map(
+                      "multi": st.booleans(), "silent_after": st.booleans(), "cancel_at": st.sampled_from([0.02, 0.5, 1.2, 2.5]),
+                      "forms": st.sampled_from(["bb", "bh", "hb", "hh"]), "lifetime_after": st.sampled_from([30, 0.5, 600])}).map(
                 lambda c: dict(c, api="lan") if (c["api"] == "ac" and c["phase"] == "auth") else c)
 
     ctx.hyp("v3", cases(3), lambda c: _run_one(ctx, c), ctx.n(6000, 400000))
